@@ -188,6 +188,10 @@ def run(tier, seed):
     r = vlib.tlc("C17", FAMILY, "AggSigDBMC", cfg, timeout=1700)
     vlib.require_mc_ok(r, cfg)
     o.add_mc(cfg[:-4], r)
+    # without expiry a reader that holds a value holds exactly what is stored (ReadsCurrent; 3 stores on one duty)
+    r = vlib.tlc("C17", FAMILY, "AggSigDBMC", "AggSigDBMC_noexp.cfg", timeout=600)
+    vlib.require_mc_ok(r, "AggSigDBMC_noexp")
+    o.add_mc("AggSigDBMC_noexp", r)
     r = vlib.tlc("C17", FAMILY, "AggSigDBMC", "AggSigDBMC_live.cfg", timeout=900)
     vlib.require_mc_ok(r, "AggSigDBMC_live")
     o.add_mc("AggSigDBMC_live", r)
